@@ -200,28 +200,15 @@ def answerB (blocks : List (List Event)) (q : Query) (unfl : List Event := []) :
   let (whereF, stages) : Option (String × Op × Lit) × List Stage := match q.stages with
     | .where_ f op l :: r => (some (f, op, l), r)
     | st => (none, st)
-  -- recorded deviation (class where-quoted-number-not-canonical): the where stage compares a QUOTED number with the
-  -- canonical text of the field's number, so `where x="2.50"` / "5.0" / "+5" / "05" / "1e0" matches nothing — not even the
-  -- stored text "2.50" — while `where x="2.5"` and `where x=2.50` compare by value
-  let plainDec (p : String) : Bool :=
-    let cs := (if p.startsWith "-" then (p.drop 1).toString else p).toList
-    let ip := cs.takeWhile Char.isDigit
-    let rest := cs.dropWhile Char.isDigit
-    let ipOk := ip == ['0'] || (!ip.isEmpty && ip.head? != some '0')
-    let fpOk := match rest with
-      | [] => true
-      | '.' :: fp => !fp.isEmpty && fp.all Char.isDigit && fp.getLast? != some '0'
-      | _ => false
-    ipOk && fpOk
+  -- (repaired, patch c02-8: the where stage compared a QUOTED number with the canonical text of the field's number, so
+  -- `where x="2.50"` / "5.0" / "+5" / "05" / "1e0" matched nothing, not even the stored text "2.50"; the class label
+  -- where-quoted-number-not-canonical is no longer emitted, a recurrence is reported without a class)
   let evalW (e : Event) : Tri × Classes := match whereF with
     | none => (.yes, [])
     | some (f, op, l) =>
       match e.get f, l.num? with
       | some v, some _ =>
-        if (v.aggNum?).isSome then
-          let wc := match l with | .str p => if plainDec p then [] else ["where-quoted-number-not-canonical"] | _ => []
-          ((evalCmp (some v) op l).1, wc)
-        else (.either, [])
+        if (v.aggNum?).isSome then ((evalCmp (some v) op l).1, []) else (.either, [])
       | _, _ => (.either, [])
   let evalBoth (e : Event) : Tri × Classes :=
     let (a, c1) := evalFilter e q.filter
